@@ -38,8 +38,10 @@ def bits (P : Platform) (t : Ty) : Nat :=
   | .long => P.charBit * P.sizeofLong
   | .llong => P.charBit * P.sizeofLongLong
 
-def tmin (P : Platform) (t : Ty) : Int := if t.signed then -(2 ^ (bits P t - 1)) else 0
-def tmax (P : Platform) (t : Ty) : Int := if t.signed then 2 ^ (bits P t - 1) - 1 else 2 ^ bits P t - 1
+/-- smallest / largest value of a type (two's complement; written with `/ 2` so that the formulas also make sense for a
+    degenerate platform record with 0-bit types) -/
+def tmin (P : Platform) (t : Ty) : Int := if t.signed then -((2 : Int) ^ bits P t / 2) else 0
+def tmax (P : Platform) (t : Ty) : Int := if t.signed then ((2 : Int) ^ bits P t + 1) / 2 - 1 else 2 ^ bits P t - 1
 
 /-- conversion of a mathematical integer to type `t` (C17 6.3.1.3; modular also for signed destinations, as gcc/clang) -/
 def conv (P : Platform) (t : Ty) (v : Int) : Int := wrapC (bits P t) t.signed v
@@ -140,7 +142,9 @@ def arith (P : Platform) (t : Ty) (r : Int) : Option Int :=
 /-- bit pattern of a value of type `t` -/
 def pat (P : Platform) (t : Ty) (v : Int) : Nat := (v % 2 ^ bits P t).toNat
 
-/-- binary operator on operands `a : ta`, `b : tb` (values already in their types); `none` = undefined behaviour -/
+/-- binary operator on operands `a : ta`, `b : tb` (values already in their types); `none` = undefined behaviour.
+    The results of `%` and `>>` are always representable in the operation type; they are nevertheless passed through
+    `arith` / `conv` (which leave a representable value unchanged) so that representability of every result is syntactic. -/
 def evalBin (P : Platform) (op : BinOp) (ta tb : Ty) (a b : Int) : Option Int :=
   if op.isShift then
     let t := promote P ta
@@ -150,7 +154,7 @@ def evalBin (P : Platform) (op : BinOp) (ta tb : Ty) (a b : Int) : Option Int :=
     else if op = .shl then
       if t.signed then (if a' < 0 then none else arith P t (a' * 2 ^ c.toNat))
       else some (conv P t (a' * 2 ^ c.toNat))
-    else some (a' / 2 ^ c.toNat)
+    else some (conv P t (a' / 2 ^ c.toNat))
   else
     let t := uac P ta tb
     let a' := conv P t a
@@ -160,7 +164,7 @@ def evalBin (P : Platform) (op : BinOp) (ta tb : Ty) (a b : Int) : Option Int :=
     | .sub => arith P t (a' - b')
     | .mul => arith P t (a' * b')
     | .div => if b' = 0 then none else arith P t (Int.tdiv a' b')
-    | .mod => if b' = 0 then none else if t.signed ∧ a' = tmin P t ∧ b' = -1 then none else some (Int.tmod a' b')
+    | .mod => if b' = 0 then none else if t.signed ∧ a' = tmin P t ∧ b' = -1 then none else arith P t (Int.tmod a' b')
     | .band => some (conv P t (Int.ofNat (pat P t a' &&& pat P t b')))
     | .bor => some (conv P t (Int.ofNat (pat P t a' ||| pat P t b')))
     | .bxor => some (conv P t (Int.ofNat (pat P t a' ^^^ pat P t b')))
